@@ -296,7 +296,7 @@ pub fn run_c19(cx: &Ctx) -> i32 {
             // T1: free spacing under (?x) -- the base must not contain characters that change meaning under x
             let x_safe = !pattern.contains(' ') && !pattern.contains('#');
             if x_safe {
-                for (fname, filler) in [("blank", " "), ("newline", "\n"), ("comment", "# c\n")] {
+                for (fname, filler) in [("blank", " "), ("newline", "\n"), ("comment", "# c\n"), ("two blanks", "  "), ("newline+blank", "\n "), ("three blanks", "   ")] {
                     for &b in &bs {
                         variants.push((format!("T1 (?x) {} at {}", fname, b), format!("(?x){}", insert_at(&pattern, &[b], filler)), true));
                     }
@@ -309,7 +309,7 @@ pub fn run_c19(cx: &Ctx) -> i32 {
             }
             variants.push(("T2 (?#c) everywhere".into(), insert_at(&pattern, &bs, "(?#c)"), true));
             // comment bodies with escapes, multi-byte characters and syntax characters
-            for body in ["(?#)", "(?#\\é)", "(?#é\\)x)", "(?#😀\\\\)", "(?# [(|*+?{\\) )", "(?#\\€\\😀)"] {
+            for body in ["(?#)", "(?#\\é)", "(?#é\\)x)", "(?#😀\\\\)", "(?# [(|*+?{\\) )", "(?#\\€\\😀)", "(?#\\\\\\))", "(?#\\\\\\)(x)", "(?#a\\\\\\\\\\)b)"] {
                 variants.push((format!("T2 {} everywhere", body), insert_at(&pattern, &bs, body), true));
                 if let Some(&b) = bs.first() {
                     variants.push((format!("T2 {} at {}", body, b), insert_at(&pattern, &[b], body), true));
@@ -319,6 +319,9 @@ pub fn run_c19(cx: &Ctx) -> i32 {
             if facts.n_groups >= 1 {
                 for (nm, naming) in [("T3 (?<n>) \\k<n>", Naming::Angle), ("T3 (?P<n>) (?P=n)", Naming::Python), ("T3 \\k'n'", Naming::Quote)] {
                     variants.push((nm.into(), ast::to_pattern_named(node, naming), true));
+                }
+                for (nm, naming) in [("T3 (?<n>) \\k<n> with non-ASCII names", Naming::Angle), ("T3 (?P<n>) (?P=n) with non-ASCII names", Naming::Python), ("T3 \\k'n' with non-ASCII names", Naming::Quote)] {
+                    variants.push((nm.into(), ast::to_pattern_unicode_names(node, naming), true));
                 }
                 if facts.has_backref && !facts.has_cond {
                     variants.push(("T3 relative \\k<-n>".into(), ast::to_pattern_named(node, Naming::Relative), true));
